@@ -26,7 +26,8 @@ META = {
         "scrubber matches inside canonical text; bare-quarter regexes are "
         "applied only under clean_qq and before the half-plus-quarter and "
         "intervener passes; the substitution loops re-derive their subject. "
-        "Not decided: identity of lots/aliquots under every configuration."),
+        "Not decided: identity of lots/aliquots under every configuration."
+        ' Also: Tract.parse feeds TractParser the un-preprocessed text (re-parse with clean_qq off is not contaminated), clean_qq lock-down, chain family inclusion.'),
     'families': ['RX-LANG', 'TBL', 'FIXPOINT', 'ORDER', 'STRIPSET'],
 }
 
